@@ -97,6 +97,16 @@ func (r *vReq) apply(g *zzmodel.Ghost) {
 	}
 }
 
+// refusedKvChecked: no other client's successful delete of the same key ran next to r.
+func refusedKvChecked(reqs []*vReq, r *vReq) bool {
+	for _, o := range reqs {
+		if o != r && o.kind == 2 && o.ok && !o.err && string(o.key) == string(r.key) {
+			return false
+		}
+	}
+	return true
+}
+
 // VerifC01Race: two concurrent clients on shared keys, all interleavings within the preemption
 // bound, from every initial key state reachable by a short history.
 func VerifC01Race() {
@@ -152,6 +162,15 @@ func VerifC01Race() {
 			zzverif.Assert(r.rev >= r.kv.Revision, "response header revision >= revision of the returned kv")
 			if !r.ok {
 				zzverif.Cover("refused-with-kv")
+				if r.exp != 0 && r.wants(g0) && refusedKvChecked(reqs, r) {
+					// the request named the key's version and lost to a concurrent writer: the kv in the
+					// answer is the key's current one — the winner's, never the very version the request
+					// named. (Not asserted when the key differed from the expectation to begin with — a
+					// concurrent writer may then have produced exactly the named version meanwhile — nor
+					// when another client deleted the key: there is no current kv then, and the node
+					// answers with the last one it read.)
+					zzverif.Assert(r.kv.Revision != r.exp, "a condition that failed because a concurrent writer won is answered with the current kv, not with the version the request named")
+				}
 			}
 		}
 	}
